@@ -7,6 +7,8 @@
 #include "common/gen.h"
 #include "stir/verif_hooks.h"
 #include "stir/ProjDataInMemory.h"
+#include "stir/ProjDataInterfile.h"
+#include "stir/ProjData.h"
 #include "stir/ExamInfo.h"
 #include "stir/ProjDataInfoCylindricalNoArcCorr.h"
 #include "stir/DetectionPositionPair.h"
@@ -303,6 +305,28 @@ make_data(const shared_ptr<const ProjDataInfo>& pdi, vf::Rng& rng, double lo, do
       }
   return pd;
 }
+// File-backed copy of `src`: written as Interfile into the case's temp directory, then re-opened through
+// ProjData::read_from_file (a ProjDataFromStream on an fstream shared by all threads, the storage users reconstruct from).
+// Returns null when the sampling does not survive the Interfile header (TOF mashed to one position, see DESIGN 9.2 C02).
+static long g_file_counter = 0;
+static shared_ptr<ProjData>
+file_backed(Ctx& ctx, const ProjData& src, const shared_ptr<ProjDataInfo>& pdi, bool by_sinogram, bool writable)
+{
+  const std::string base = ctx.tmpdir + "/c18_" + std::to_string(ctx.idx) + "_" + std::to_string(++g_file_counter);
+  {
+    shared_ptr<ExamInfo> ei(new ExamInfo(ImagingModality::PT));
+    ProjDataInterfile out(ei, pdi, base + ".hs", std::ios::out,
+                          // (the Interfile writer supports TOF data in by-view order only)
+                          by_sinogram && pdi->get_num_tof_poss() == 1 ? ProjDataFromStream::Segment_AxialPos_View_TangPos
+                                                                        : ProjDataFromStream::Segment_View_AxialPos_TangPos);
+    out.fill(src);
+  }
+  shared_ptr<ProjData> in = ProjData::read_from_file(base + ".hs", writable ? (std::ios::in | std::ios::out) : std::ios::in);
+  if (!in || !(*in->get_proj_data_info_sptr() == *pdi))
+    return shared_ptr<ProjData>();
+  return in;
+}
+
 static shared_ptr<VoxelsOnCartesianGrid<float>>
 make_fov_image(const shared_ptr<const ProjDataInfo>& pdi, vf::Rng& rng, bool fill)
 {
@@ -616,7 +640,8 @@ w_project(Ctx& ctx)
   const int nth = pick_threads(ctx, work);
   const int num_subsets = ctx.rng.coin(0.3) ? 2 : 1;
   const int subset = static_cast<int>(ctx.rng.range(0, num_subsets - 1));
-  ctx.desc.add("workload", "forward_back").add("threads", nth).add("num_subsets", num_subsets);
+  const int storage = static_cast<int>(ctx.rng.range(0, 2)); // 0 memory, 1 Interfile by view, 2 Interfile by sinogram
+  ctx.desc.add("workload", "forward_back").add("threads", nth).add("num_subsets", num_subsets).add("storage", storage);
   ctx.heartbeat("project");
   if (g.pdi->get_num_views() % num_subsets)
     throw vf::Skip("views not divisible");
@@ -635,9 +660,27 @@ w_project(Ctx& ctx)
     shared_ptr<ExamInfo> ei(new ExamInfo(ImagingModality::PT));
     fwd_out.reset(new ProjDataInMemory(ei, pdi));
     fwd_out->fill(-7.F);
-    fp->forward_project(*fwd_out, *image, subset, num_subsets, true);
-    bck_out.reset(image->get_empty_copy());
-    bp->back_project(*bck_out, *data, subset, num_subsets);
+    shared_ptr<ProjData> fwd_file, bck_file;
+    if (storage != 0)
+      {
+        fwd_file = file_backed(ctx, *fwd_out, pdi, storage == 2, true);
+        bck_file = file_backed(ctx, *data, pdi, storage == 2, false);
+      }
+    if (fwd_file && bck_file)
+      {
+        // all threads write their viewgrams into / read them from one shared stream
+        fp->forward_project(*fwd_file, *image, subset, num_subsets, true);
+        fwd_out->fill(*fwd_file);
+        bck_out.reset(image->get_empty_copy());
+        bp->back_project(*bck_out, *bck_file, subset, num_subsets);
+        ctx.count(threads > 1 ? "project_runs_file_backed" : "project_reference_runs_file_backed");
+      }
+    else
+      {
+        fp->forward_project(*fwd_out, *image, subset, num_subsets, true);
+        bck_out.reset(image->get_empty_copy());
+        bp->back_project(*bck_out, *data, subset, num_subsets);
+      }
     omp_set_num_threads(1);
   };
   shared_ptr<ProjDataInMemory> f1, fn;
@@ -701,12 +744,14 @@ w_objective(Ctx& ctx)
   const int subset = static_cast<int>(ctx.rng.range(0, num_subsets - 1));
   const int work = g.pdi->get_num_views() / num_subsets * g.pdi->get_num_tof_poss();
   const int nth = pick_threads(ctx, work);
-  ctx.desc.add("workload", "objective").add("threads", nth).add("num_subsets", num_subsets).add("additive", use_add).add("norm", use_norm);
+  const int storage = static_cast<int>(ctx.rng.range(0, 2)); // 0 memory, 1 Interfile by view, 2 Interfile by sinogram
+  ctx.desc.add("workload", "objective").add("threads", nth).add("num_subsets", num_subsets).add("additive", use_add).add("norm", use_norm)
+      .add("storage", storage);
   ctx.heartbeat("objective");
   struct Res
   {
     double value;
-    shared_ptr<target_type> grad, sens, hess;
+    shared_ptr<target_type> grad, sens, hess, ahess;
     std::vector<std::pair<long, long>> log;
   };
   auto run = [&](int threads, bool perturb_it, uint64_t seed) -> Res {
@@ -719,7 +764,23 @@ w_objective(Ctx& ctx)
     shared_ptr<ExamInfo> ei(new ExamInfo(ImagingModality::PT));
     shared_ptr<ProjDataInMemory> y(new ProjDataInMemory(ei, pdi));
     y->fill(*data);
-    obj.set_proj_data_sptr(y);
+    // measured data (and additive term) either in memory or on file: the Hessian loops read viewgrams from the data
+    // object inside their parallel region without any lock of their own
+    shared_ptr<ProjData> y_file, a_file;
+    if (storage != 0)
+      {
+        y_file = file_backed(ctx, *y, pdi, storage == 2, false);
+        if (use_add)
+          a_file = file_backed(ctx, *add, pdi, storage == 2, false);
+      }
+    const bool on_file = y_file && (!use_add || a_file);
+    if (on_file)
+      {
+        obj.set_proj_data_sptr(y_file);
+        ctx.count(threads > 1 ? "objective_runs_file_backed" : "objective_reference_runs_file_backed");
+      }
+    else
+      obj.set_proj_data_sptr(y);
     obj.set_use_subset_sensitivities(true);
     shared_ptr<ProjMatrixByBin> m(new ProjMatrixByBinUsingRayTracing());
     shared_ptr<ProjectorByBinPair> pp(new ProjectorByBinPairUsingProjMatrixByBin(m));
@@ -728,7 +789,10 @@ w_objective(Ctx& ctx)
       {
         shared_ptr<ProjDataInMemory> a(new ProjDataInMemory(ei, pdi));
         a->fill(*add);
-        obj.set_additive_proj_data_sptr(a);
+        if (on_file)
+          obj.set_additive_proj_data_sptr(a_file);
+        else
+          obj.set_additive_proj_data_sptr(a);
       }
     if (use_norm)
       {
@@ -749,6 +813,8 @@ w_objective(Ctx& ctx)
     r.sens.reset(obj.get_subset_sensitivity(subset).clone());
     shared_ptr<target_type> dir(image->clone());
     obj.accumulate_sub_Hessian_times_input_without_penalty(*r.hess, *image, *dir, subset);
+    r.ahess.reset(image->get_empty_copy());
+    obj.add_multiplication_with_approximate_sub_Hessian_without_penalty(*r.ahess, *dir, subset);
     omp_set_num_threads(1);
     set_num_threads(1);
     return r;
@@ -799,7 +865,13 @@ w_objective(Ctx& ctx)
         }
       if (!images_close(*r1.hess, *rn.hess, nth, terms, where))
         {
-          ctx.violation("hessian-times-input:multi-thread-differs-from-single-thread", where);
+          ctx.violation("hessian-times-input:multi-thread-differs-from-single-thread", where + (storage ? " [data on file]" : ""));
+          return;
+        }
+      if (!images_close(*r1.ahess, *rn.ahess, nth, terms, where))
+        {
+          ctx.violation("approximate-hessian-times-input:multi-thread-differs-from-single-thread",
+                        where + (storage ? " [data on file]" : ""));
           return;
         }
       // value: sum of per-bin terms, partial sums per thread in double
